@@ -40,4 +40,14 @@ def run(ctx):
     spec = {('mean', ()): 1, ('variance', (True,)): 1, ('variance', (False,)): 2, ('stdev', (True,)): 1, ('stdev', (False,)): 2,
             ('skewness', (True,)): 2, ('skewness', (False,)): 3, ('kurtosis', (True,)): 3, ('kurtosis', (False,)): 4,
             ('excess_kurtosis', (True,)): 3, ('excess_kurtosis', (False,)): 4}
-    N.nan_table(ctx, 'R9.5', {'statistics', 'utils'}, 'Tally', list(spec), '_n', spec, pos_fields={'Tally': ['_m2', '_m4']})
+    spec[('confidence_interval', (0.05,))] = 2
+    N.nan_table(ctx, 'R9.5', {'statistics', 'utils'}, 'Tally', list(spec), '_n', spec, pos_fields={'Tally': ['_m2', '_m4']}, num_fields={'Tally': ['_min', '_max', '_m1']})
+    # all-equal observations (every central moment is zero): mean, variance, stdev and the confidence interval stay defined (the
+    # interval degenerates to the single value); skewness and kurtosis are undefined for every n
+    NEVER = 10 ** 9
+    spec0 = {('mean', ()): 1, ('variance', (True,)): 1, ('variance', (False,)): 2, ('stdev', (True,)): 1, ('stdev', (False,)): 2,
+             ('confidence_interval', (0.05,)): 2,
+             ('skewness', (True,)): NEVER, ('skewness', (False,)): NEVER, ('kurtosis', (True,)): NEVER, ('kurtosis', (False,)): NEVER,
+             ('excess_kurtosis', (True,)): NEVER, ('excess_kurtosis', (False,)): NEVER}
+    N.nan_table(ctx, 'R9.5', {'statistics', 'utils'}, 'Tally', list(spec0), '_n', spec0, zero_fields={'Tally': ['_m2', '_m3', '_m4']}, num_fields={'Tally': ['_min', '_max', '_m1']},
+                label_suffix=' [all observations equal]')
